@@ -453,7 +453,7 @@ def BodyReg(obj:Logic):
         close = "end\n";
         
     if not(obj.e is None):
-        str += "if (e == 1)\n"
+        str += "if (e != 0)\n"
         str += "begin\n"
         close = "end\n" + close
         
